@@ -112,6 +112,26 @@ func c01Scenario(r *vf.Run, t *testing.T, id string, rng *rand.Rand, g genOpts, 
 			e.P.Write(rt.Concat(wireBytes[i:min(i+per, len(wireBytes))]))
 			rt.Wait()
 		}
+		// frames a peer may send at any time on streams whose handlers have not answered yet
+		var actions []rt.Action
+		if p.GateMode != 0 {
+			var extra []byte
+			for _, q := range reqs {
+				if rng.Intn(3) == 0 {
+					dep := q.Stream + 2
+					extra = append(extra, rt.Priority(q.Stream, dep, rng.Intn(2) == 0, byte(rng.Intn(256)))...)
+				}
+				if p.WindowMode == 1 && rng.Intn(3) == 0 {
+					inc := uint32(1 + rng.Intn(500))
+					actions = append(actions, rt.Action{At: e.P.NFrames(), Kind: "wu", Stream: q.Stream, Val: int64(inc)})
+					extra = append(extra, rt.WindowUpdate(q.Stream, inc)...)
+				}
+			}
+			if len(extra) > 0 {
+				e.P.Write(extra)
+				rt.Wait()
+			}
+		}
 		// let handlers finish in the chosen order
 		switch p.GateMode {
 		case 1:
@@ -152,8 +172,33 @@ func c01Scenario(r *vf.Run, t *testing.T, id string, rng *rand.Rand, g genOpts, 
 					break
 				}
 				out = append(out, rt.WindowUpdate(0, connInc)...)
+				at := e.P.NFrames()
+				for _, fb := range splitFrames(out) {
+					actions = append(actions, rt.Action{At: at, Kind: "wu", Stream: uint32(fb[5]&0x7f)<<24 | uint32(fb[6])<<16 | uint32(fb[7])<<8 | uint32(fb[8]), Val: int64(uint32(fb[9])<<24 | uint32(fb[10])<<16 | uint32(fb[11])<<8 | uint32(fb[12]))})
+				}
 				e.P.Write(out)
 				rt.Wait()
+				// every response whose handler has returned must use the credit it was given
+				led := &rt.Ledger{InitWindow: 65535}
+				for _, q := range reqs {
+					led.Opened = append(led.Opened, q.Stream)
+				}
+				viol, st := led.Replay(e.P.Frames(), actions, 1)
+				if viol != "" {
+					fail("window-exceeded", viol)
+					break
+				}
+				stalled := false
+				for _, q := range reqs {
+					owed := int64(len(q.Resp.Body)) - st.Sent[q.Stream]
+					if owed > 0 && st.Streams[q.Stream] > 0 && st.Conn > 0 {
+						fail("response-stalled", fmt.Sprintf("response %s (stream %d) still owes %d bytes with stream window %d and connection window %d while the server is quiescent", q.Tag, q.Stream, owed, st.Streams[q.Stream], st.Conn))
+						stalled = true
+					}
+				}
+				if stalled {
+					break
+				}
 			}
 		}
 		fs := e.P.Frames()
